@@ -51,6 +51,7 @@ type storeT struct {
 	Type, Name string
 	Certs      []string // root inter leaf other
 	Exists     bool
+	LinkFile   bool   // one of the store's entries is a symbolic link to a certificate file of another store: the store cannot be loaded
 	LinkTo     string // non-empty: the store directory is a symbolic link to this other store's directory ("type/name")
 }
 
@@ -118,6 +119,18 @@ func main() {
 				os.WriteFile(filepath.Join(d, c+".crt"), certs[c].Raw, 0o644)
 			}
 		}
+		// a store entry that is a symbolic link to the signer's root kept elsewhere (outside the trust store, or in a store of
+		// another type): every entry must be a regular file, so such a store cannot be loaded - and must not confer trust
+		os.WriteFile(filepath.Join(base, "root-kept-elsewhere.crt"), certs["root"].Raw, 0o644)
+		for k := range stores {
+			if rng.Intn(7) == 0 {
+				d := filepath.Join(base, "truststore", "x509", stores[k].Type, stores[k].Name)
+				if os.Symlink(filepath.Join(base, "root-kept-elsewhere.crt"), filepath.Join(d, "zz-linked.crt")) == nil {
+					stores[k].LinkFile = true
+					r.Event("stores-with-a-linked-entry")
+				}
+			}
+		}
 		// named stores that are symbolic links to a store of another type or name: such a store cannot be loaded, and
 		// what the link points at (a tsa or signingAuthority store, say) must not leak into the type that lists it
 		if len(stores) > 0 && rng.Intn(3) == 0 {
@@ -153,7 +166,7 @@ func main() {
 			return nil
 		}
 		loadable := func(st *storeT) bool {
-			if st == nil || len(st.Certs) == 0 || st.LinkTo != "" {
+			if st == nil || st.LinkFile || len(st.Certs) == 0 || st.LinkTo != "" {
 				return false
 			}
 			for _, c := range st.Certs {
@@ -232,7 +245,7 @@ func main() {
 		for step := 0; step < steps; step++ {
 			f := lib.Formats[rng.Intn(2)]
 			sc := []string{"notary.x509", "notary.x509.signingAuthority"}[rng.Intn(2)]
-			repo := []string{"reg.io/a", "reg.io/b", "reg.io/c"}[rng.Intn(3)]
+			repo := []string{"reg.io/a", "reg.io/b", "reg.io/c", "REG.IO/a", "Reg.io/b"}[rng.Intn(5)] // (host spelled in another case: another repository string)
 			st := applicable(repo)
 			lts.calls = nil
 			if rng.Intn(6) == 0 {
